@@ -44,6 +44,8 @@ struct Want {
     mclv: bool,
     split_refs: bool,
     mop: bool,
+    /// texture layers per terrain chunk (classic files have up to 4, later ones up to 8)
+    layers: u32,
 }
 
 fn rich_mcnk(tpl: &McnkChunk, i: usize, n_tex: u32, w: &Want) -> McnkChunk {
@@ -65,11 +67,12 @@ fn rich_mcnk(tpl: &McnkChunk, i: usize, n_tex: u32, w: &Want) -> McnkChunk {
     c.normals = Some(normals);
     // layers: base + two alpha-mapped ones (one of them flagged compressed)
     let mut layers = MclyChunk::default();
-    for l in 0..3u32 {
+    for l in 0..w.layers {
         let mut layer = MclyLayer::default();
         layer.texture_id = l % n_tex;
         layer.flags = MclyFlags { value: if l == 0 { 0 } else if l == 1 { 0x100 } else { 0x300 } };
-        layer.offset_in_mcal = if l == 0 { 0 } else { (l - 1) * 2048 };
+        // (layers behind the third share the compressed stream of the third)
+        layer.offset_in_mcal = if l == 0 { 0 } else { (l.min(2) - 1) * 2048 };
         layer.effect_id = if l == 2 { 0xFFFF_FFFF } else { l };
         layers.layers.push(layer);
     }
@@ -247,6 +250,10 @@ fn water() -> Mh2oChunk {
 }
 
 fn root_adt(version: AdtVersion, n_mcnk: usize) -> Vec<u8> {
+    root_adt_layers(version, n_mcnk, 3)
+}
+
+fn root_adt_layers(version: AdtVersion, n_mcnk: usize, n_layers: u32) -> Vec<u8> {
     let tpl = mcnk_template();
     let tbc = version >= AdtVersion::TBC;
     let wotlk = version >= AdtVersion::WotLK;
@@ -285,7 +292,7 @@ fn root_adt(version: AdtVersion, n_mcnk: usize) -> Vec<u8> {
             scale: 1024,
         });
     }
-    let want = Want { mccv: version >= AdtVersion::VanillaLate, mclq: !wotlk, mclv: cata, split_refs: cata, mop };
+    let want = Want { mccv: version >= AdtVersion::VanillaLate, mclq: !wotlk, mclv: cata, split_refs: cata, mop, layers: n_layers };
     for i in 0..n_mcnk {
         b = b.add_mcnk_chunk(rich_mcnk(&tpl, i, 3, &want));
     }
@@ -497,6 +504,10 @@ fn adt_seeds(_ctx: &SeedCtx) -> Vec<Seed> {
         checked("adt/cata-root-2mcnk", root_adt(V::Cataclysm, 2), MCNK_ROOT_HEADER, root_ok(V::Cataclysm, 2, true)),
         checked("adt/mop-root-2mcnk", root_adt(V::MoP, 2), MCNK_ROOT_HEADER, root_ok(V::MoP, 2, true)),
         checked("adt/wotlk-root-full256", full_size_adt(V::WotLK), MCNK_ROOT_HEADER, root_ok(V::WotLK, 256, true)),
+        checked("adt/mop-root-8layers-2mcnk", root_adt_layers(V::MoP, 2, 8), MCNK_ROOT_HEADER, |p| match p {
+            ParsedAdt::Root(r) => r.mcnk_chunks.len() == 2 && r.mcnk_chunks.iter().all(|c| c.layers.as_ref().map(|l| l.layers.len()) == Some(8) && c.alpha.is_some()),
+            _ => false,
+        }),
     ];
     v.push(checked("adt/mop-tex0-3mcnk", tex0_adt(3), 0, |p| match p {
         ParsedAdt::Tex0(t) => t.textures.len() == 3 && t.mcnk_textures.len() == 3 && t.mcnk_textures.iter().all(|m| m.layers.is_some() && m.alpha_maps.is_some()) && t.texture_params.is_some(),
@@ -544,6 +555,16 @@ fn adt_drive(_s: &Seed, data: &[u8], p: &mut Probe) {
                 }
                 std::hint::black_box(n)
             });
+            p.call_plain("CombinedAlphaMap::new", || {
+                let mut n = 0usize;
+                for ch in r.mcnk_chunks.iter().take(256) {
+                    for (big, fix) in [(false, false), (true, false), (false, true), (true, true)] {
+                        let m = wow_adt::CombinedAlphaMap::new(ch, big, fix);
+                        n += std::mem::size_of_val(&m);
+                    }
+                }
+                std::hint::black_box(n)
+            });
             p.call("BuiltAdt::from_root_adt + to_bytes", || wow_adt::builder::BuiltAdt::from_root_adt(*r, None).to_bytes());
         }
     }
@@ -555,7 +576,7 @@ pub fn formats() -> Vec<FormatDef> {
     vec![FormatDef {
         name: "adt",
             family: "adt",
-        entries: &["parse_adt", "ParsedAdt accessors", "McalChunk::get_layer_alpha + AlphaMap::decompress", "BuiltAdt::from_root_adt + to_bytes", "parse_adt_with_metadata", "discover_chunks"],
+        entries: &["parse_adt", "ParsedAdt accessors", "McalChunk::get_layer_alpha + AlphaMap::decompress", "CombinedAlphaMap::new", "BuiltAdt::from_root_adt + to_bytes", "parse_adt_with_metadata", "discover_chunks"],
         seeds: adt_seeds,
         drive: adt_drive,
         cipher: None,
